@@ -30,7 +30,7 @@ LEARNERS = ['ITML', 'MMC', 'SDML', 'SCML', 'LSML']
 
 def cases(tier, seed):
   out = []
-  nds = 5 if tier == 'quick' else 16
+  nds = 5 if tier == 'quick' else 100
   nt = 30 if tier == 'quick' else 200
   for name in LEARNERS:
     dss = common.ds_specs(seed, 'C04' + name, nds,
